@@ -5,7 +5,7 @@
    PacketsRejects.v, CleanProofs.v. *)
 From PahoV Require Import Base.Prelude Codec.RemLen Codec.RemLenProofs Codec.RemLenBridge Codec.Wire
   Codec.Packets Codec.SpecDecode Codec.PacketsSpec Codec.PacketsApi Codec.PacketsProofs Codec.PacketsRejects
-  Codec.CleanProofs Codec.PacketsBridge Gen.GenRL Gen.GenPubCmd Gen.GenConnFlags.
+  Codec.CleanProofs Codec.PacketsBridge Gen.GenRL Gen.GenPubCmd Gen.GenConnFlags Gen.GenSendPublishCalls.
 
 (* ================================================================ 1. remaining length *)
 (* the source's _pack_remaining_length (translated on every run) is the model, for every n >= 0 *)
@@ -66,6 +66,14 @@ Theorem C04_source_connect_flags_is_model : forall fuel v cls cs first bridge ka
                          c_props := props |}).
 Proof. exact connect_flags_bridge. Qed.
 Print Assumptions C04_source_connect_flags_is_model.
+
+(* the DEFERRED emission paths: every call site of _send_publish (publish(), the CONNACK retransmission loop,
+   _update_inflight) passes the stored message's own mid/topic/payload/qos/retain/dup/properties - so, with
+   C04_publish_roundtrip, the PUBLISH written later for a stored message decodes to the arguments given to publish() *)
+Theorem C04_deferred_calls_pass_stored_arguments :
+  forallb send_publish_call_ok gen_send_publish_calls = true /\ (6 <= length gen_send_publish_calls)%nat.
+Proof. exact send_publish_calls_ok. Qed.
+Print Assumptions C04_deferred_calls_pass_stored_arguments.
 
 (* ================================================================ 2. round trip, every packet type *)
 (* representable v it : every string <= 65535 bytes, keepalive <= 65535, packet id 1..65535 where sent,
